@@ -14,6 +14,7 @@ import (
 
 	"verif/harness"
 	"verif/rt"
+	"verif/sim"
 )
 
 func init() {
@@ -244,6 +245,18 @@ func init() {
 				}
 				fs, inc = append(fs, f2...), append(inc, i2...)
 				ev["rt_flood"] = e2
+			}
+			if prop == "C14" {
+				// sim half: syncs of every height (also right after a failed commit callback of that very height) in executions with commit
+				// failures and the split hand-off: the round entered by sync is never started as a first-leader round
+				p := advProfile(map[string]int{"barePP": 0, "support": 25, "mutate": 10}, 500, 3)(run.Thorough())
+				p.CommitFailures, p.SplitHandoff, p.SyncPct, p.HonestOnly = true, true, 10, false
+				sfs, sev := sim.RunWorkloadFor(run, "C14", "c14", p, run.Pick(2500, 50000), []string{"C14 rounds entered by sync judged", "commits"})
+				fs = append(fs, sfs...)
+				ev["sim_syncs"] = sev
+				if j := sev["sim_events_judged"].(map[string]int); j["C14 rounds entered by sync judged"] < 3000 {
+					inc = append(inc, "floor missed: sim half judged fewer than 3000 rounds entered by sync")
+				}
 			}
 			if prop == "C14" {
 				// tens of thousands of back-to-back syncs from two callers next to junk traffic and state readers
